@@ -1192,6 +1192,7 @@ def make_module(dump, opt, modname, gen_src, oracle, resources=False):
         o.append("fn imp_%d() { %s }\n" % (fm.idx, "\n  ".join(body)))
         iarms.append("%d => imp_%d()," % (fm.idx, fm.idx))
     o.append("pub fn import(k: usize) { match k { %s _ => rt::note(\"no-such-import\") } }\n" % " ".join(iarms))
+    o.append("pub fn init() {}\n")
     return "".join(o), funcs, notes
 
 
@@ -1274,7 +1275,7 @@ class Workspace:
                 main.append("mod %s;" % m)
             main.append("fn main() { rt::main_loop(&[")
             for m in live:
-                main.append("  rt::Module { name: \"%s\", export: %s::export, post: %s::post, import: %s::import }," % (m, m, m, m))
+                main.append("  rt::Module { name: \"%s\", export: %s::export, post: %s::post, import: %s::import, init: %s::init }," % (m, m, m, m, m))
             main.append("]); }")
             _write_if_different(os.path.join(self.dir, c, "src", "main.rs"), "\n".join(main) + "\n")
             _write_if_different(os.path.join(self.dir, c, "src", "rt.rs"), self.rt_src)
